@@ -1,6 +1,7 @@
 package props
 
 import (
+	"io"
 	"context"
 	"encoding/json"
 	"fmt"
@@ -380,6 +381,82 @@ func init() {
 		}
 		c.Outcome(fmt.Sprintf("body-rejected-%d", ex.Rec.Status))
 	}
+	// ---- google.api.HttpBody.content_type becomes a header: a value that is not a legal header
+	// value (CR LF, NUL) must not get there, in either direction
+	evilCT := []string{"text/plain\r\nX-Injected: yes", "a/b\nSet-Cookie: x=1", "a/b\x00c"}
+	ctInjection := func(c *xplor.Ctx) {
+		ct := evilCT[c.Free("content-type", len(evilCT))]
+		dir := c.Free("direction", 2)
+		c.Attr("~content-type", fmt.Sprintf("%q", ct))
+		bad := func(h http.Header) string {
+			for k, vs := range h {
+				for _, v := range vs {
+					if strings.ContainsAny(v, "\r\n\x00") {
+						return fmt.Sprintf("%s: %q", k, v)
+					}
+				}
+			}
+			return ""
+		}
+		ctJSON, _ := json.Marshal(ct)
+		if dir == 0 {
+			c.Attr("direction", "request: RPC client, REST backend")
+			var seen http.Header
+			calls := 0
+			backend := http.HandlerFunc(func(w http.ResponseWriter, r *http.Request) {
+				calls++
+				seen = r.Header.Clone()
+				_, _ = io.Copy(io.Discard, r.Body)
+				w.Header().Set("Content-Type", "application/x-thing")
+				_, _ = w.Write([]byte{1, 2, 3})
+			})
+			tc, err := world.Build(world.Config{Protocols: []vanguard.Protocol{vanguard.ProtocolREST}, MaxMsg: 1 << 20}, backend)
+			if err != nil {
+				c.Fail("harness.setup", "%v", err)
+				return
+			}
+			form := []wire.Form{wire.ConnectUnary, wire.GRPCWeb, wire.GRPC}[c.Free("client", 3)]
+			cr := &wire.ClientReq{Form: form, Path: world.SvcPath + "Blob", Codec: "json", Msgs: [][]byte{[]byte(`{"name":"f","body":{"contentType":` + string(ctJSON) + `,"data":"aGk="}}`)}}
+			ex, err := world.Do(tc, world.SpecFromClient(cr))
+			if err != nil {
+				c.Fail("harness.setup", "%v", err)
+				return
+			}
+			c.Nontrivial(fmt.Sprintf("ct-injection|req|%s|%q", form, ct))
+			if ex.Panic != nil {
+				c.Fail("C07.panic", "%s\n%s", ex.Panic.Value, stackTop(ex.Panic.Stack))
+				return
+			}
+			if b := bad(seen); calls > 0 && b != "" {
+				c.Fail("C07.illegal-header-value-from-message", "HttpBody.content_type %q of the request message reached the REST backend as the header %s", ct, b)
+			}
+			c.Outcome(fmt.Sprintf("ct-request calls=%d", calls))
+			return
+		}
+		c.Attr("direction", "response: REST client, RPC backend")
+		be := &world.Backend{Respond: func(b *world.Backend, r *http.Request) *world.Reply {
+			return world.EchoReply(b.Parsed, [][]byte{Enc(b.Parsed.Codec, MkMsg(`{"name":"f","body":{"contentType":`+string(ctJSON)+`,"data":"aGk="}}`))}, "", nil)
+		}}
+		tc, err := world.Build(world.Config{Protocols: []vanguard.Protocol{[]vanguard.Protocol{vanguard.ProtocolConnect, vanguard.ProtocolGRPC}[c.Free("target", 2)]}, Codecs: []string{"proto"}, MaxMsg: 1 << 20}, be)
+		if err != nil {
+			c.Fail("harness.setup", "%v", err)
+			return
+		}
+		ex, err := world.Do(tc, c07REST("POST", "/v1/blob/f", "image/png", []byte{1, 2}))
+		if err != nil {
+			c.Fail("harness.setup", "%v", err)
+			return
+		}
+		c.Nontrivial(fmt.Sprintf("ct-injection|resp|%q", ct))
+		if ex.Panic != nil {
+			c.Fail("C07.panic", "%s\n%s", ex.Panic.Value, stackTop(ex.Panic.Stack))
+			return
+		}
+		if b := bad(ex.Rec.Snapshot); b != "" {
+			c.Fail("C07.illegal-header-value-from-message", "HttpBody.content_type %q of the response message reached the REST client as the header %s (HTTP %d)", ct, b, ex.Rec.Status)
+		}
+		c.Outcome(fmt.Sprintf("ct-response status=%d", ex.Rec.Status))
+	}
 	// ---- RPC -> REST -> RPC through two chained transcoders
 	chainMsgs := map[string][]string{
 		"Unary":  msgAlphabet,
@@ -512,6 +589,7 @@ func init() {
 			{Name: "rest-to-rpc", Fn: restToRPC, QuickBound: 0, ThoroughBound: 0},
 			{Name: "ill-typed", Fn: illTyped, QuickBound: 0, ThoroughBound: 0},
 			{Name: "ill-formed-bodies", Fn: illBody, QuickBound: 0, ThoroughBound: 0},
+			{Name: "content-type-from-message", Fn: ctInjection, QuickBound: 0, ThoroughBound: 0},
 			{Name: "rpc-rest-rpc", Fn: chain, QuickBound: 0, ThoroughBound: 0},
 		},
 		MinOutcomes: 5,
